@@ -557,7 +557,7 @@ where
         let mut update_proofs = Vec::<UpdateProof>::new();
         for user_state in &user_data {
             let proof = self
-                .create_single_update_proof(akd_label, user_state)
+                .create_single_update_proof(&current_azks, akd_label, user_state)
                 .await?;
             update_proofs.push(proof);
         }
@@ -771,6 +771,7 @@ where
     #[cfg_attr(feature = "tracing_instrument", tracing::instrument(skip_all))]
     async fn create_single_update_proof(
         &self,
+        current_azks: &Azks,
         akd_label: &AkdLabel,
         user_state: &ValueState,
     ) -> Result<UpdateProof, AkdError> {
@@ -783,7 +784,6 @@ where
             .get_node_label::<TC>(akd_label, VersionFreshness::Fresh, version)
             .await?;
 
-        let current_azks = self.retrieve_azks().await?;
         let existence_vrf = self
             .vrf
             .get_label_proof::<TC>(akd_label, VersionFreshness::Fresh, version)
